@@ -1,6 +1,7 @@
 //! rvh: correspondence harness. Each sub-command drives the real roughenough code (library
 //! in-process, or the real binaries) and prints one case per line: `op \t args.. \t impl-output`.
 //! The Lean driver answers each line with a verdict (see /verif/lean/Rough/Driver).
+mod client;
 mod codec;
 mod keys;
 mod merkle;
@@ -48,6 +49,8 @@ fn main() {
         "merkle" => merkle::run(&ctx),
         "srv" => srv::run(&ctx),
         "sign" => keys::run_sign(&ctx),
+        "client-honest" => client::run_honest(&ctx),
+        "client-forged" => client::run_forged(&ctx),
         "stats" => stats::run(&ctx),
         "ltk" => keys::run_ltk(&ctx),
         "srep" => keys::run_srep(&ctx),
@@ -86,6 +89,7 @@ fn replay(ctx: &Ctx) {
             "dec" | "disp" | "enc" => codec::replay_one(&mut out, op, args),
             "merkle" => merkle::replay_one(&mut out, args),
             "srv" => srv::replay_one(&mut out, args),
+            "client" => client::replay_one(&mut out, args),
             "stats" | "rep" => stats::replay_one(&mut out, op, args),
             "sign" | "vrf" | "ltk" | "srep" => keys::replay_one(&mut out, op, args),
             _ => eprintln!("replay: unknown op {}", op),
